@@ -7,21 +7,23 @@ From DbftV Require Spec_dbft Spec_antiMEV Spec_CV3 Proofs_dbft Proofs_antiMEV Wi
 Import ListNotations.
 Open Scope Z_scope.
 
-(* formal-models/dbft/dbft.tla: no two nodes accept blocks in different views - for EVERY duplicate-free RM (any N),
-   every RMFault with Cardinality(RMFault) <= F, every RMDead, views unbounded (the MaxView constraint only prunes TLC). *)
-Theorem dbft_InvTwoBlocksAccepted (RM RMFault RMDead : list Z) :
-  NoDup RM -> Z.of_nat (List.length RMFault) <= Spec_dbft.d_F RM ->
+(* The constants of a model are constrained by its ASSUME, which is translated with the rest of the module (d_ASSUME); sets are
+   duplicate-free lists.  For EVERY such RM (any N), RMFault, RMDead and MaxView - views themselves are unbounded in the theorems,
+   the MaxView constraint only prunes TLC: *)
+
+(* formal-models/dbft/dbft.tla: no two nodes accept blocks in different views *)
+Theorem dbft_InvTwoBlocksAccepted (RM RMFault RMDead : list Z) (MaxView : Z) :
+  NoDup RM -> NoDup RMFault -> Spec_dbft.d_ASSUME RMFault MaxView RMDead RM = true ->
   forall s, Proofs_dbft.Reach RM RMFault RMDead s -> Spec_dbft.d_InvTwoBlocksAccepted RM s = true.
-Proof. exact (Proofs_dbft.InvTwoBlocksAccepted_holds RM RMFault RMDead). Qed.
+Proof. exact (Proofs_dbft.InvTwoBlocksAccepted_holds RM RMFault RMDead MaxView). Qed.
 Print Assumptions dbft_InvTwoBlocksAccepted.
 
 (* formal-models/dbft_antiMEV/dbft.tla: the same statement for the anti-MEV model *)
-Theorem antiMEV_InvTwoBlocksAccepted (RM RMFault RMDead : list Z) :
-  NoDup RM -> Z.of_nat (List.length RMFault) <= Spec_antiMEV.d_F RM ->
+Theorem antiMEV_InvTwoBlocksAccepted (RM RMFault RMDead : list Z) (MaxView : Z) :
+  NoDup RM -> NoDup RMFault -> Spec_antiMEV.d_ASSUME RMFault MaxView RMDead RM = true ->
   forall s, Proofs_antiMEV.Reach RM RMFault RMDead s -> Spec_antiMEV.d_InvTwoBlocksAccepted RM s = true.
-Proof. exact (Proofs_antiMEV.InvTwoBlocksAccepted_holds RM RMFault RMDead). Qed.
+Proof. exact (Proofs_antiMEV.InvTwoBlocksAccepted_holds RM RMFault RMDead MaxView). Qed.
 Print Assumptions antiMEV_InvTwoBlocksAccepted.
-
 
 (* type correctness of both models in every reachable state, for EVERY RM, RMFault, RMDead (no size bound, no view bound) *)
 Theorem dbft_TypeOK (RM RMFault RMDead : list Z) :
@@ -33,17 +35,16 @@ Theorem antiMEV_TypeOK (RM RMFault RMDead : list Z) :
 Proof. exact (Proofs_antiMEV.TypeOK_holds RM RMFault RMDead). Qed.
 Print Assumptions antiMEV_TypeOK.
 
-(* at most F faulty or dead nodes, for every duplicate-free RM, when the permitted faulty and dead nodes number at most F
-   together (every shipped configuration: one of the two sets is empty and the other has one element, F = 1) *)
-Theorem dbft_InvFaultNodesCount (RM RMFault RMDead : list Z) :
-  NoDup RM -> Z.of_nat (List.length RMFault) + Z.of_nat (List.length RMDead) <= Spec_dbft.d_F RM ->
+(* at most F faulty or dead nodes: by the ASSUME's Cardinality(RMFault \cup RMDead) <= F *)
+Theorem dbft_InvFaultNodesCount (RM RMFault RMDead : list Z) (MaxView : Z) :
+  NoDup RM -> Spec_dbft.d_ASSUME RMFault MaxView RMDead RM = true ->
   forall s, Proofs_dbft.Reach RM RMFault RMDead s -> Spec_dbft.d_InvFaultNodesCount RM s = true.
-Proof. exact (Proofs_dbft.InvFaultNodesCount_holds RM RMFault RMDead). Qed.
+Proof. exact (Proofs_dbft.InvFaultNodesCount_holds RM RMFault RMDead MaxView). Qed.
 Print Assumptions dbft_InvFaultNodesCount.
-Theorem antiMEV_InvFaultNodesCount (RM RMFault RMDead : list Z) :
-  NoDup RM -> Z.of_nat (List.length RMFault) + Z.of_nat (List.length RMDead) <= Spec_antiMEV.d_F RM ->
+Theorem antiMEV_InvFaultNodesCount (RM RMFault RMDead : list Z) (MaxView : Z) :
+  NoDup RM -> Spec_antiMEV.d_ASSUME RMFault MaxView RMDead RM = true ->
   forall s, Proofs_antiMEV.Reach RM RMFault RMDead s -> Spec_antiMEV.d_InvFaultNodesCount RM s = true.
-Proof. exact (Proofs_antiMEV.InvFaultNodesCount_holds RM RMFault RMDead). Qed.
+Proof. exact (Proofs_antiMEV.InvFaultNodesCount_holds RM RMFault RMDead MaxView). Qed.
 Print Assumptions antiMEV_InvFaultNodesCount.
 
 (* formal-models/dbft2.1_threeStagedCV/dbftCV3.tla violates InvTwoBlocksAccepted with the permitted fault set
